@@ -37,6 +37,8 @@ type Engine struct {
 
 	mapOrderOn  bool
 	mapOrderMax int
+	// PermutedRanges counts, per function, the map range loops whose order was solver-chosen
+	PermutedRanges map[string]int
 }
 
 type jent struct {
@@ -101,7 +103,7 @@ func NewEngine(prog *ssa.Program, allow func(string) bool) *Engine {
 			}
 		}
 	}
-	e := &Engine{i: i, InitAllow: allow, X: NewExplorer(), Funcs: map[*ssa.Function]int64{}}
+	e := &Engine{i: i, InitAllow: allow, X: NewExplorer(), Funcs: map[*ssa.Function]int64{}, PermutedRanges: map[string]int{}}
 	theEngine = e
 	return e
 }
